@@ -1,4 +1,5 @@
 import SLE.Lemmas.Merge
+import SLE.Lemmas.MergePacked
 /-!
 # C16 — combining typing evidence is independent of order and grouping
 
@@ -56,5 +57,21 @@ theorem C16_assoc_fails_on_pinned :
 example : PF (.mapping 0 1) = true ∧ PF (.word none .numeric) = true := by decide
 example : Bad (.mapping 0 1) (.mapping 1 0) (.word (some 8) .bool) = false := by decide
 example : Bad .bytes (.word (some 8) .bool) (.word (some 160) .address) = true := by decide
+
+
+/-! ### Including packed encodings -/
+
+/-- Commutativity holds on ALL type expressions, packed encodings included: the two orders give
+the same expression, the same fresh variables with the same numbers, and the same emitted
+equalities and judgements up to their order. -/
+theorem C16_comm_all (a b : TE) : OutEq (outcome a b) (outcome b a) := MergePacked.merge_comm_all a b
+
+/-- Grouping is where the packed arms fail (finding D18): the same three pieces of evidence end in
+the encoding or in a conflict depending on which two meet first. -/
+theorem C16_assoc_fails_with_packed_on_pinned :
+    (groupL (.packed [⟨1, 0, 8⟩] false) (.word (some 8) .bool) (.word (some 8) .address)).1
+        = .packed [⟨1, 0, 8⟩] false ∧
+    (groupR (.packed [⟨1, 0, 8⟩] false) (.word (some 8) .bool) (.word (some 8) .address)).1
+        = .conflict := MergePacked.merge_assoc_packed_fails_witness
 
 end SLE.C16
